@@ -94,6 +94,9 @@ def judge(c):
     p = c.meta["p"]
     if c.meta["fam"] == "D":
         parts = [x.strip() for x in I.split(";")]
+        if I == "ERR badinput" and M == "ERR badinput":
+            c.meta["skipped"] = True   # the format spells a literal zone outside the zone bounds (+00:75): refusing is right
+            return res
         if I == "ERR bounds":
             if M != "ERR bounds" and M != "UNMODELLED" and not M.startswith(("ERR", "EXC")):
                 # the year of the converted point fits the agreed digits (the dump model, proved for these formats,
